@@ -21,7 +21,7 @@ RULE = ("cells = {steady: form x solver x grid relation x observation map x mode
         "PDEModel.gradient with a dense reference.  A cell is non-trivial when at least one observation was returned (not refused)")
 BOUND = {
     "quick": "steady: 3 forms (N=6 nodes) x 6 solvers x 6 grid relations x 3 maps (+3 domain geometries x 3 gradient hooks on the "
-             "default solver); time dependent: 3 forms (N=5) x {uniform,non-uniform} x K in {2,3,4,6} x 2 methods x 7 time_obs x 6 grid "
+             "default solver); time dependent: 3 forms (N=5) x {uniform,non-uniform} x K in {2,3,4,6} x 2 methods x 6 time_obs (+ the capitalised FINAL on 2 grid relations) x 6 grid "
              "relations x 3 maps, + 5 backward-Euler solver variants x K in {3,4}; shipped: Poisson1D dim {6,9} and Heat1D dim {5,8} x "
              "field {None,Step,KL} x observation_grid_map {None, subset}; 2 parameter points per cell",
     "thorough": "as quick with K in 2..6, N in {5,7} for the time-dependent forms, N in {6,9} steady, and all 3 value catalogues in one run",
